@@ -40,7 +40,14 @@ def _setup_once():
     ServoM = sys.modules["Reduino.Actuators.Servo"]
     DCM = sys.modules["Reduino.Actuators.DCMotor"]
     ledger = []
-    A.sleep = lambda ms, **k: ledger.append(ms)
+    real_sleep = A.sleep
+
+    def recording_sleep(ms, **k):
+        # the real Utils.sleep validates its argument (and raises) before it blocks: keep that, drop only the blocking
+        real_sleep(ms, sleep_func=lambda seconds: None)
+        ledger.append(ms)
+
+    A.sleep = recording_sleep
 
     def led_ok(self):
         EVALS["n"] += 1
